@@ -878,4 +878,597 @@ Section Stream.
         * f_equal. symmetry. apply locate_cert_none. intros j Hj.
           destruct (N.le_gt_cases j base); [apply Hbelow; assumption|apply Habove; lia].
   Qed.
+
+  (* ---------------------------------------------------------------- *)
+  (* G. prefix search (port of PFCPrefixProofs: BucketScan + Glue)     *)
+  (* ---------------------------------------------------------------- *)
+  Section PrefixScan.
+    Variable p : str.
+    Hypothesis Hnp : nul_free p.
+    Variables (base Eb : N).
+    Hypothesis Hbase : base mod b = 0.
+    Hypothesis HE1 : Eb <= base + b.
+    Hypothesis HE2 : Eb <= lenN S.
+
+    Let nomatch (j : N) : Prop := is_prefix p (snth S j) = false.
+
+    Lemma rsearch_prefix_spec : forall (n : nat) i fuel s,
+      base <= i -> i < Eb -> N.to_nat (Eb - 1 - i) = n -> (n < fuel)%nat ->
+      s <= lcp (snth S i) p ->
+      (forall j, base <= j -> j < i -> nomatch j) ->
+      exists r ptr' dec',
+        rsearch_prefix fuel d p (Eb - base) (E i) (snth S i) s (i - base + 1) = Some (r, ptr', dec') /\
+        ((r = 0 /\ forall j, base <= j -> j < Eb -> nomatch j) \/
+         (exists j, i <= j /\ j < Eb /\ r = j - base + 1 /\ ptr' = E j /\ dec' = snth S j /\
+                    is_prefix p (snth S j) = true /\ forall j', base <= j' -> j' < j -> nomatch j')).
+    Proof.
+      induction n as [|n IH]; intros i fuel s Hi1 Hi2 Hn Hf Hs Hprev;
+        (destruct fuel as [|f]; [lia|]); cbn [rsearch_prefix].
+      all: pose proof (LexLemmas.lcp_le_l (snth S i) p) as Hl1;
+           pose proof (LexLemmas.lcp_le_r (snth S i) p) as Hl2.
+      all: destruct (N.leb_spec s (lenN (snth S i))); [|lia].
+      all: destruct (cmp_from0_spec (snth S i) p s (s_nul_free i ltac:(lia)) Hnp Hs) as (z & Ec & Hsgn);
+           rewrite Ec.
+      all: destruct (N.eqb_spec (lcp (snth S i) p) (lenN p)) as [Efound|Enf].
+      1,3: (eexists _, _, _; split; [reflexivity|]; right; exists i;
+            repeat split; auto; try lia; apply is_prefix_lcp'; exact Efound).
+      all: assert (Hnm : nomatch i)
+             by (unfold nomatch; destruct (is_prefix p (snth S i)) eqn:Ei; [apply is_prefix_lcp' in Ei; contradiction|reflexivity]).
+      all: specialize (Hsgn ltac:(lia)).
+      - (* last string of the bucket *)
+        assert (Hor : ((0 <? z)%Z || (i - base + 1 =? Eb - base)) = true).
+        { destruct (N.eqb_spec (i - base + 1) (Eb - base)); [apply orb_true_r|lia]. }
+        rewrite Hor. eexists _, _, _; split; [reflexivity|]. left. split; [reflexivity|].
+        intros j Hj1 Hj2. destruct (N.eq_dec j i) as [->|Hne']; [exact Hnm|apply Hprev; lia].
+      - destruct (Z.ltb_spec 0 z) as [Hz|Hz]; cbn [orb].
+        + (* the current string is already above the pattern *)
+          destruct Hsgn as [[_ Hgt]|[Hz' _]]; [|lia].
+          eexists _, _, _; split; [reflexivity|]. left. split; [reflexivity|].
+          intros j Hj1 Hj2. destruct (N.lt_ge_cases j i) as [Hlt|Hge]; [apply Hprev; assumption|].
+          apply (nomatch_after S p i j Hsort Hge ltac:(lia)).
+          unfold pcls. unfold nomatch in Hnm. rewrite Hnm. exact Hgt.
+        + destruct Hsgn as [[Hz' _]|[_ Hlt]]; [lia|].
+          destruct (N.eqb_spec (i - base + 1) (Eb - base)); [lia|].
+          assert (Hi3 : i + 1 < Eb) by lia.
+          rewrite (stream_dstep i ltac:(lia) (in_bucket_mod' base i Hbase Hi1 ltac:(lia))).
+          assert (Hii : lex_lt (snth S i) (snth S (i + 1))) by (apply s_lt; lia).
+          destruct (N.ltb_spec (lcp (snth S i) (snth S (i + 1))) (lcp (snth S i) p)) as [Hsh|Hsh].
+          * (* fewer shared symbols: the next string is above p and does not have the prefix *)
+            eexists _, _, _; split; [reflexivity|]. left. split; [reflexivity|].
+            intros j Hj1 Hj2. destruct (N.lt_ge_cases j i) as [Hlti|Hge]; [apply Hprev; assumption|].
+            destruct (N.eq_dec j i) as [->|Hne']; [exact Hnm|].
+            apply (nomatch_after S p (i + 1) j Hsort ltac:(lia) ltac:(lia)).
+            assert (Hnm1 : is_prefix p (snth S (i + 1)) = false).
+            { destruct (is_prefix p (snth S (i + 1))) eqn:E1; [|reflexivity].
+              apply is_prefix_lcp in E1.
+              pose proof (lcp_min p (snth S i) (snth S (i + 1))) as Hmin.
+              rewrite (lcp_comm p (snth S i)) in Hmin. lia. }
+            unfold pcls. rewrite Hnm1. apply lex_gt_lt.
+            apply (scan_trick_lt (snth S i) p (snth S (i + 1)) Hlt Hii Hsh).
+          * destruct (IH (i + 1) f (lcp (snth S i) p) ltac:(lia) Hi3 ltac:(lia) ltac:(lia)) as (r & ptr' & dec' & Er & Hr).
+            { pose proof (lcp_min (snth S i) (snth S (i + 1)) p). lia. }
+            { intros j Hj1 Hj2. destruct (N.eq_dec j i) as [->|Hne']; [exact Hnm|apply Hprev; lia]. }
+            replace (i - base + 1 + 1) with (i + 1 - base + 1) by lia.
+            rewrite Er.
+            exists r, ptr', dec'. split; [reflexivity|].
+            destruct Hr as [Hr|(j & Hj1 & Hj2 & Hr)]; [left; exact Hr|].
+            right. exists j. split; [lia|]. split; [exact Hj2|exact Hr].
+    Qed.
+
+    Lemma rsearch_distinct_spec : forall (n : nat) j fuel id sc,
+      base <= j -> j < Eb -> N.to_nat (Eb - 1 - j) = n -> (n < fuel)%nat ->
+      sc + j + 1 = Eb + id -> 1 <= id ->
+      is_prefix p (snth S j) = true ->
+      exists j', j <= j' /\ j' < Eb /\
+        rsearch_distinct fuel d (lenN p) sc (E j) (snth S j) id = Some (id + (j' - j)) /\
+        is_prefix p (snth S j') = true /\ (j' + 1 < Eb -> nomatch (j' + 1)).
+    Proof.
+      induction n as [|n IH]; intros j fuel id sc Hj1 Hj2 Hn Hf Hsc Hid Hm;
+        (destruct fuel as [|f]; [lia|]); cbn [rsearch_distinct].
+      - destruct (N.ltb_spec id sc); [lia|].
+        exists j. repeat split; auto; try lia. f_equal. lia.
+      - destruct (N.ltb_spec id sc); [|lia].
+        assert (Hj3 : j + 1 < Eb) by lia.
+        rewrite (stream_dstep j ltac:(lia) (in_bucket_mod' base j Hbase Hj1 ltac:(lia))).
+        pose proof (prefix_next p (snth S j) (snth S (j + 1)) Hm) as Hnext.
+        destruct (N.ltb_spec (lcp (snth S j) (snth S (j + 1))) (lenN p)) as [Hsh|Hsh].
+        + exists j. repeat split; auto; try lia; [f_equal; lia|].
+          intros _. unfold nomatch. destruct (is_prefix p (snth S (j + 1))); [|reflexivity].
+          pose proof (proj1 Hnext eq_refl). lia.
+        + destruct (IH (j + 1) f (id + 1) sc ltac:(lia) Hj3 ltac:(lia) ltac:(lia) ltac:(lia) ltac:(lia)
+                      (proj2 Hnext Hsh)) as (j' & H1 & H2 & Er & H3 & H4).
+          exists j'. split; [lia|]. split; [exact H2|]. split; [rewrite Er; f_equal; lia|]. split; assumption.
+    Qed.
+  End PrefixScan.
+
+  Lemma rlbb_spec p : nul_free p ->
+    exists L R, rpfc_locate_boundary_buckets d p = Some (L, R) /\ lbb_post (r_buckets d) (hcls b S p) L R.
+  Proof.
+    intros Hnp.
+    assert (Hidx : forall k, 1 <= k -> k <= r_buckets d -> (k - 1) * b < lenN S).
+    { intros k H1 H2. apply (buckets_iff k); lia. }
+    unfold rpfc_locate_boundary_buckets.
+    apply (locate_boundary_buckets_abs (hdr_view d) p (r_buckets d) (hcls b S p) eq_refl).
+    - intros k H1 H2. apply (strncmp_stream k p H1 H2 Hnp).
+    - intros j k H1 H2 H3 Hc. unfold hcls in *.
+      apply (cls_before S p ((k - 1) * b) ((j - 1) * b) Hsort);
+        [apply N.mul_le_mono_r; lia|apply Hidx; lia|exact Hc].
+    - intros j k H1 H2 H3 Hc. unfold hcls in *.
+      apply (cls_after S p ((j - 1) * b) ((k - 1) * b) Hsort);
+        [apply N.mul_le_mono_r; lia|apply Hidx; lia|exact Hc].
+    - exact buckets_pos.
+  Qed.
+
+  Section Glue.
+    Variable p : str.
+    Hypothesis Hnp : nul_free p.
+
+    Lemma rsame_bucket_case k : 1 <= k -> k <= r_buckets d ->
+      rpfc_locate_boundary_buckets d p = Some (k, k) ->
+      (forall j, j < (k - 1) * b -> is_prefix p (snth S j) = false) ->
+      (k * b < lenN S -> pcls p (snth S (k * b)) = Gt) ->
+      rpfc_locate_prefix d p = Some (range_of (spec_prefix_ids S p)).
+    Proof.
+      intros Hk1 Hk2 Elbb Hbefore Hafter.
+      unfold rpfc_locate_prefix. rewrite Elbb, Hbs.
+      destruct (N.ltb_spec 0 k); [|lia]. rewrite N.eqb_refl.
+      rewrite (mul_pred_succ k b Hk1) in Hafter.
+      destruct (rbucket_facts k Hk1 Hk2) as (base & Eb & Eb' & Hmod & HbE & HE1 & HE2 & Esc & Egh & Hnext & _).
+      rewrite <- Eb' in *. clear Eb'.
+      rewrite Egh, Esc.
+      destruct (rsearch_prefix_spec p Hnp base Eb Hmod HE1 HE2
+                  (N.to_nat (Eb - 1 - base)) base (Datatypes.S (Datatypes.S (N.to_nat (Eb - base)))) 0)
+        as (r & ptr' & dec' & Esp & Hsp); try lia.
+      replace (base - base + 1) with 1 in Esp by lia. rewrite Esp.
+      destruct Hsp as [[-> Hnone]|(j & Hj1 & Hj2 & -> & -> & -> & Hmj & Hprev)].
+      - cbn [N.eqb]. f_equal. symmetry. apply none_cert.
+        intros j Hj. destruct (N.lt_ge_cases j base) as [H1|H1]; [apply Hbefore; exact H1|].
+        destruct (N.lt_ge_cases j Eb) as [H2|H2]; [apply Hnone; assumption|].
+        destruct (Hnext ltac:(lia)) as [EE _]. subst Eb.
+        apply (nomatch_after S p (base + b) j Hsort H2 Hj). apply Hafter. lia.
+      - destruct (N.eqb_spec (j - base + 1) 0); [lia|].
+        destruct (rsearch_distinct_spec p base Eb Hmod HE1 HE2
+                    (N.to_nat (Eb - 1 - j)) j (Datatypes.S (Datatypes.S (N.to_nat (Eb - base)))) 1
+                    (Eb - base - (j - base + 1) + 1)) as (j' & H1 & H2 & Esd & Hmj' & Hnj'); try lia; auto.
+        rewrite Esd. f_equal.
+        rewrite (range_cert S p j j' Hsort H1 ltac:(lia) Hmj Hmj').
+        + f_equal; lia.
+        + destruct (N.eq_dec j base) as [->|Hne'].
+          * destruct (N.eq_dec base 0) as [->|Hb0]; [left; reflexivity|].
+            right. apply Hbefore. lia.
+          * right. apply Hprev; lia.
+        + destruct (N.lt_ge_cases (j' + 1) Eb) as [H3|H3]; [right; apply Hnj'; exact H3|].
+          assert (j' + 1 = Eb) by lia.
+          destruct (N.eq_dec Eb (lenN S)) as [EE|NE]; [left; lia|].
+          destruct (Hnext ltac:(lia)) as [EE _]. right.
+          replace (j' + 1) with (base + b) by lia.
+          apply (nomatch_after S p (base + b) (base + b) Hsort); [lia|lia|apply Hafter; lia].
+    Qed.
+
+    Lemma rtwo_bucket_case L R : 1 <= L -> L < R -> R <= r_buckets d ->
+      rpfc_locate_boundary_buckets d p = Some (L, R) ->
+      (L = 1 \/ hcls b S p L = Lt) ->
+      hcls b S p (L + 1) = Eq -> hcls b S p R = Eq ->
+      (R + 1 <= r_buckets d -> hcls b S p (R + 1) = Gt) ->
+      rpfc_locate_prefix d p = Some (range_of (spec_prefix_ids S p)).
+    Proof.
+      intros HL1 HLR HRm Elbb HcL HcL1 HcR HcR1.
+      unfold rpfc_locate_prefix. rewrite Elbb, Hbs.
+      destruct (N.ltb_spec 0 L); [|lia]. destruct (N.eqb_spec L R); [lia|].
+      unfold hcls in *. rewrite N.add_sub in HcL1, HcR1.
+      apply pcls_Eq in HcL1, HcR.
+      assert (HLb : L * b = (L - 1) * b + b) by (apply mul_pred_succ; lia).
+      assert (HLRb : L * b <= (R - 1) * b) by (apply N.mul_le_mono_r; lia).
+      assert (HRb : R * b = (R - 1) * b + b) by (apply mul_pred_succ; lia).
+      destruct (rbucket_facts L ltac:(lia) ltac:(lia)) as (baseL & EL & EbL & HmodL & HbEL & HEL1 & HEL2 & EscL & EghL & _ & HfullL).
+      destruct (rbucket_facts R ltac:(lia) ltac:(lia)) as (baseR & ER & EbR & HmodR & HbER & HER1 & HER2 & EscR & EghR & HnextR & _).
+      destruct (HfullL ltac:(lia)) as [EEL HELn].
+      assert (HbL0 : L = 1 -> baseL = 0) by (intros ->; rewrite EbL; reflexivity).
+      rewrite <- EbL in *. rewrite <- EbR in *. clear EbL EbR.
+      revert HcL1 HcR1 HLb HLRb HRb. generalize (L * b). generalize (R * b). intros Rb Lb HcL1 HcR1 HLb HLRb HRb.
+      subst Lb Rb EL.
+      rewrite EghL, EscL.
+      destruct (rsearch_prefix_spec p Hnp baseL (baseL + b) HmodL HEL1 HEL2
+                  (N.to_nat (baseL + b - 1 - baseL)) baseL (Datatypes.S (Datatypes.S (N.to_nat (baseL + b - baseL)))) 0)
+        as (r & ptr' & dec' & Esp & Hsp); try lia.
+      replace (baseL - baseL + 1) with 1 in Esp by lia. rewrite Esp.
+      rewrite EghR, EscR.
+      destruct (rsearch_distinct_spec p baseR ER HmodR HER1 HER2
+                  (N.to_nat (ER - 1 - baseR)) baseR (Datatypes.S (Datatypes.S (N.to_nat (ER - baseR)))) 1
+                  (ER - baseR)) as (j' & H1 & H2 & Esd & Hmj' & Hnj'); try lia; auto.
+      rewrite Esd. f_equal. clear HmodL HmodR EghL EghR EscL EscR Esp Esd Elbb.
+      assert (Hhi : j' + 1 = lenN S \/ is_prefix p (snth S (j' + 1)) = false).
+      { destruct (N.lt_ge_cases (j' + 1) ER) as [H3|H3]; [right; apply Hnj'; exact H3|].
+        assert (j' + 1 = ER) by lia.
+        destruct (N.eq_dec ER (lenN S)) as [EE|NE]; [left; lia|].
+        destruct (HnextR ltac:(lia)) as [EE HR1]. right.
+        replace (j' + 1) with (baseR + b) by lia.
+        apply (nomatch_after S p (baseR + b) (baseR + b) Hsort); [lia|lia|apply HcR1; exact HR1]. }
+      destruct Hsp as [[-> Hnone]|(j & Hj1 & Hj2 & -> & -> & -> & Hmj & Hprev)].
+      - (* nothing in bucket L: the first match is the header of bucket L+1 *)
+        cbn [N.eqb].
+        rewrite (range_cert S p (baseL + b) j' Hsort ltac:(lia) ltac:(lia) HcL1 Hmj').
+        + f_equal; lia.
+        + right. apply Hnone; lia.
+        + exact Hhi.
+      - destruct (N.eqb_spec (j - baseL + 1) 0); [lia|].
+        rewrite (range_cert S p j j' Hsort ltac:(lia) ltac:(lia) Hmj Hmj').
+        + f_equal; lia.
+        + destruct (N.eq_dec j baseL) as [->|Hne']; [|right; apply Hprev; lia].
+          destruct HcL as [HcL|HcL].
+          * left. apply HbL0. exact HcL.
+          * apply pcls_Lt in HcL. destruct HcL as [HcL _]. congruence.
+        + exact Hhi.
+    Qed.
+
+    Theorem rpfc_locate_prefix_stream : rpfc_locate_prefix d p = Some (range_of (spec_prefix_ids S p)).
+    Proof.
+      pose proof buckets_pos as Hm1.
+      assert (Hidx : forall k, 1 <= k -> k <= r_buckets d -> (k - 1) * b < lenN S).
+      { intros k H1 H2. apply (buckets_iff k); lia. }
+      pose proof (rlbb_spec p Hnp) as Hlbb.
+      destruct Hlbb as (L & R & Elbb & [(fE & lE & Hf1 & Hf2 & Hf3 & HcLt & HcEq & HcGt & -> & ->)|(-> & HRm & HcLt & HcGt)]).
+      - (* some header has the prefix *)
+        destruct (N.eqb_spec fE 1) as [->|Hf].
+        + destruct (N.eq_dec lE 1) as [->|Hl].
+          * apply (rsame_bucket_case 1); [lia|exact Hm1|exact Elbb|intros j Hj; lia|].
+            intros Hn. rewrite N.mul_1_l in *.
+            assert (H2 : 2 <= r_buckets d)
+              by (apply (buckets_iff 2); [lia|]; replace ((2 - 1) * b) with b by lia; exact Hn).
+            pose proof (HcGt 2 ltac:(lia) H2) as Hc. unfold hcls in Hc.
+            replace ((2 - 1) * b) with b in Hc by lia. exact Hc.
+          * apply (rtwo_bucket_case 1 lE);
+              [lia|lia|lia|exact Elbb|left; reflexivity|apply HcEq; lia|apply HcEq; lia|intros H'; apply HcGt; lia].
+        + apply (rtwo_bucket_case (fE - 1) lE);
+            [lia|lia|lia|exact Elbb|right; apply HcLt; lia| |apply HcEq; lia|intros H'; apply HcGt; lia].
+          replace (fE - 1 + 1) with fE by lia. apply HcEq; lia.
+      - (* no header has the prefix: single candidate bucket R *)
+        destruct (N.eq_dec R 0) as [->|HR0].
+        + unfold rpfc_locate_prefix. rewrite Elbb. cbn [N.ltb N.compare]. f_equal. symmetry.
+          apply none_cert. intros j Hj.
+          pose proof (HcGt 1 ltac:(lia) Hm1) as Hc. unfold hcls in Hc.
+          replace ((1 - 1) * b) with 0 in Hc by lia.
+          apply (nomatch_after S p 0 j Hsort); auto. lia.
+        + apply (rsame_bucket_case R); auto; try lia.
+          * intros j Hj. pose proof (HcLt R ltac:(lia) ltac:(lia)) as Hc. unfold hcls in Hc.
+            apply (nomatch_before S p ((R - 1) * b) j Hsort); auto; [lia|]. apply Hidx; lia.
+          * intros Hn.
+            assert (H2 : R + 1 <= r_buckets d) by (apply (buckets_iff (R + 1)); [lia|]; rewrite N.add_sub; exact Hn).
+            pose proof (HcGt (R + 1) ltac:(lia) H2) as Hc. unfold hcls in Hc.
+            rewrite N.add_sub in Hc. exact Hc.
+    Qed.
+  End Glue.
 End Stream.
+
+(* ====================================================================== *)
+(* H. IteratorDictStringRPFC: extractTable and extractPrefix               *)
+(* ====================================================================== *)
+Section Iter.
+  Variables (d : rpfc) (b : N) (S : list str) (E : N -> bpos).
+  Hypothesis Hb : 1 <= b.
+  Hypothesis Hbs : r_bsize d = b.
+  Hypothesis Hstep : forall i, i + 1 < lenN S -> (i + 1) mod b <> 0 ->
+    dstep d (E i, snth S i) = Some (E (i + 1), snth S (i + 1)).
+  Hypothesis Hhdr : forall i, i < lenN S -> i mod b = 0 ->
+    iter_header d (hdr_off i (E (i - 1))) = Some (E i, snth S i).
+
+  (* the iterator is about to hand out string number i; c more strings are wanted *)
+  Definition riter_inv (it : rpfc_iter) (i c : N) : Prop :=
+    (i mod b <> 0 -> ri_pos it = E (i - 1) /\ ri_cur it = snth S (i - 1)) /\
+    (i mod b = 0 -> align_pos (ri_pos it) = hdr_off i (E (i - 1))) /\
+    ri_inb it mod b = i mod b /\
+    ri_processed it + c = ri_scanneable it.
+
+  Lemma succ_mod a i : a mod b = i mod b -> (a + 1) mod b = (i + 1) mod b.
+  Proof.
+    intros H. assert (Hb0 : b <> 0) by lia.
+    rewrite (N.add_mod a 1 b Hb0), (N.add_mod i 1 b Hb0), H. reflexivity.
+  Qed.
+
+  Lemma riter_next_inv it i c : riter_inv it i (c + 1) -> i < lenN S ->
+    exists it', riter_next d it = Some (snth S i, it') /\ riter_inv it' (i + 1) c.
+  Proof.
+    intros (H1 & H2 & H3 & H4) Hi. unfold riter_next. rewrite Hbs, H3.
+    assert (Hnext : forall it', ri_pos it' = E i -> ri_cur it' = snth S i ->
+              (ri_inb it' mod b = (i + 1) mod b) -> ri_processed it' + c = ri_scanneable it' ->
+              riter_inv it' (i + 1) c).
+    { intros it' P1 P2 P3 P4. unfold riter_inv. rewrite N.add_sub.
+      split; [intros _; split; assumption|]. split; [|split; assumption].
+      intros _. rewrite P1. unfold hdr_off. destruct (N.eqb_spec (i + 1) 0); [lia|reflexivity]. }
+    destruct (N.eqb_spec (i mod b) 0) as [Em|Em].
+    - specialize (H2 Em). fold (align_pos (ri_pos it)). rewrite H2, (Hhdr i Hi Em).
+      eexists. split; [reflexivity|]. apply Hnext; cbn [ri_pos ri_cur ri_inb ri_processed ri_scanneable]; try reflexivity.
+      + apply (succ_mod 0 i). rewrite Em. apply N.mod_0_l. lia.
+      + lia.
+    - destruct (H1 Em) as [P C]. rewrite P, C.
+      assert (Hi1 : 1 <= i) by (destruct (N.eq_dec i 0) as [->|]; [rewrite N.mod_0_l in Em by lia; congruence|lia]).
+      pose proof (Hstep (i - 1)) as Hs. replace (i - 1 + 1) with i in Hs by lia. rewrite (Hs Hi Em).
+      eexists. split; [reflexivity|]. apply Hnext; cbn [ri_pos ri_cur ri_inb ri_processed ri_scanneable]; try reflexivity.
+      + apply succ_mod. exact H3.
+      + lia.
+  Qed.
+
+  Lemma riter_drain_inv : forall (m : nat) i it, riter_inv it i (N.of_nat m) -> i + N.of_nat m <= lenN S ->
+    riter_drain m d it = Some (firstn m (skipN i S)).
+  Proof.
+    induction m as [|m IH]; intros i it Hinv Hle; cbn [riter_drain].
+    - destruct Hinv as (_ & _ & _ & H4). unfold riter_has_next.
+      destruct (N.ltb_spec (ri_processed it) (ri_scanneable it)); [lia|reflexivity].
+    - pose proof Hinv as (_ & _ & _ & H4). unfold riter_has_next.
+      destruct (N.ltb_spec (ri_processed it) (ri_scanneable it)); [|lia].
+      replace (N.of_nat (Datatypes.S m)) with (N.of_nat m + 1) in Hinv by lia.
+      destruct (riter_next_inv it i (N.of_nat m) Hinv ltac:(lia)) as (it' & En & Hinv').
+      rewrite En, (IH (i + 1) it' Hinv' ltac:(lia)). cbn [option_map].
+      rewrite (skipN_cons_snth S i ltac:(lia)). reflexivity.
+  Qed.
+
+  Hypothesis Hiter : forall base, base mod b = 0 -> forall j, j < b -> base + j < lenN S ->
+    N.iter j (fun o => opt_bind o (dstep d)) (Some (E base, snth S base)) = Some (E (base + j), snth S (base + j)).
+
+  (* the constructor, positioned on string base + offset of the bucket starting at string base *)
+  Lemma riter_init_inv base offset count : base mod b = 0 -> base < lenN S -> offset < b ->
+    base + offset <= lenN S ->
+    exists it, riter_init d (hdr_off base (E (base - 1))) offset count = Some it /\
+               riter_inv it (base + offset) count.
+  Proof.
+    intros Hm Hbase Ho Hn. unfold riter_init.
+    destruct (N.ltb_spec 0 offset) as [Hpos|Hz].
+    - rewrite (Hhdr base Hbase Hm).
+      rewrite (Hiter base Hm (offset - 1) ltac:(lia) ltac:(lia)).
+      eexists. split; [reflexivity|]. unfold riter_inv. cbn [ri_pos ri_cur ri_inb ri_processed ri_scanneable].
+      rewrite (mod_of_zero_plus base offset b Hm Ho).
+      replace (base + offset - 1) with (base + (offset - 1)) by lia.
+      split; [intros _; split; reflexivity|]. split; [intros; lia|]. split; [apply N.mod_small; exact Ho|lia].
+    - assert (offset = 0) by lia. subst offset. rewrite N.add_0_r.
+      eexists. split; [reflexivity|]. unfold riter_inv. cbn [ri_pos ri_cur ri_inb ri_processed ri_scanneable].
+      split; [intros Hc; congruence|]. split; [intros _; reflexivity|]. split; [rewrite Hm; apply N.mod_0_l; lia|lia].
+  Qed.
+
+  Theorem rtable_gen : S <> [] -> r_elements d = lenN S -> rpfc_extract_table d = Some S.
+  Proof.
+    intros Hne Hel. unfold rpfc_extract_table. rewrite Hel.
+    assert (Hn : 0 < lenN S) by (destruct S; [congruence|rewrite lenN_cons; lia]).
+    assert (H0 : 0 mod b = 0) by (apply N.mod_0_l; lia).
+    destruct (riter_init_inv 0 0 (lenN S) H0 Hn ltac:(lia) ltac:(lia)) as (it & Ei & Hinv).
+    change (hdr_off 0 (E (0 - 1))) with 0 in Ei. rewrite Ei.
+    rewrite N.add_0_l in Hinv.
+    replace (lenN S) with (N.of_nat (length S)) in Hinv at 1 by reflexivity.
+    rewrite (riter_drain_inv (N.to_nat (lenN S)) 0 it); [|rewrite N2Nat.id; exact Hinv|lia].
+    unfold skipN, lenN. cbn [N.to_nat skipn]. rewrite Nat2N.id, firstn_all. reflexivity.
+  Qed.
+
+  Hypothesis Hbl : forall k, 1 <= k -> (k - 1) * b < lenN S ->
+    nthN (r_bl d) k = Some (hdr_off ((k - 1) * b) (E ((k - 1) * b - 1))).
+  Hypothesis Hn32 : lenN S < 2 ^ 32.
+
+  (* the tail of extractPrefix for a non-empty ID range *)
+  Lemma riter_range lft rgt : 1 <= lft -> lft <= rgt -> rgt <= lenN S ->
+    match nthN (r_bl d) (W32m (1 + (lft - 1) / r_bsize d)) with
+    | None => None
+    | Some ptrS =>
+        match riter_init d ptrS (W32m ((lft - 1) mod r_bsize d)) (rgt - lft + 1) with
+        | None => None
+        | Some it => option_map Some (riter_drain (N.to_nat (rgt - lft + 1)) d it)
+        end
+    end = Some (Some (firstN (rgt - lft + 1) (skipN (lft - 1) S))).
+  Proof.
+    intros H1 H2 H3. rewrite Hbs.
+    assert (Hb0 : b <> 0) by lia.
+    pose proof (N.div_mod (lft - 1) b Hb0) as Hdm.
+    pose proof (N.mod_lt (lft - 1) b Hb0) as Hml.
+    pose proof (N.mod_le (lft - 1) b Hb0) as Hr.
+    assert (Hq : (lft - 1) / b <= lft - 1).
+    { apply N.div_le_upper_bound; [lia|]. rewrite <- (N.mul_1_l (lft - 1)) at 1. apply N.mul_le_mono_r. lia. }
+    rewrite (W32m_small (1 + (lft - 1) / b)) by lia.
+    rewrite (W32m_small ((lft - 1) mod b)) by lia.
+    set (k := 1 + (lft - 1) / b).
+    assert (Hbase : (k - 1) * b = lft - 1 - (lft - 1) mod b).
+    { unfold k. replace (1 + (lft - 1) / b - 1) with ((lft - 1) / b) by lia.
+      rewrite (N.mul_comm _ b). revert Hdm. generalize (b * ((lft - 1) / b)). intros; lia. }
+    assert (Hk1 : 1 <= k) by (unfold k; lia). clearbody k.
+    pose proof (bucket_base_mod k b Hb0) as Hmod0.
+    pose proof (Hbl k Hk1) as Ebl.
+    revert Hbase Hmod0 Ebl. generalize ((k - 1) * b). intros base Hbase Hmod0 Ebl.
+    rewrite (Ebl ltac:(lia)).
+    destruct (riter_init_inv base ((lft - 1) mod b) (rgt - lft + 1) Hmod0 ltac:(lia) Hml ltac:(lia)) as (it & Ei & Hinv).
+    rewrite Ei.
+    replace (base + (lft - 1) mod b) with (lft - 1) in Hinv by lia.
+    rewrite (riter_drain_inv (N.to_nat (rgt - lft + 1)) (lft - 1) it); [reflexivity| |lia].
+    rewrite N2Nat.id. exact Hinv.
+  Qed.
+End Iter.
+
+(* ====================================================================== *)
+(* I. the exported theorems                                                *)
+(* ====================================================================== *)
+Section Main.
+  Variables (d : rpfc) (b : N) (S : list str).
+  Hypothesis HL : rpfc_layout_ok d b S.
+  Hypothesis Hb : 1 <= b.
+  Hypothesis Hin : rpfc_input S.
+
+  (* 1. decodeString: from the end of string i (inside a bucket) with decoded = string i it yields
+        string i+1, the shared-prefix length and the position where string i+1 ends; getHeader
+        yields the first string of a bucket and the position where the internal strings start.
+        No out-of-bounds read, no scratch-buffer overflow, fuel suffices. *)
+  Theorem rpfc_decode_string_spec_gen :
+    exists E : N -> bpos,
+      (forall k, 1 <= k -> k <= r_buckets d ->
+         (k - 1) * b < lenN S /\ rpfc_get_header d k = Some (E ((k - 1) * b), snth S ((k - 1) * b))) /\
+      (forall i, i + 1 < lenN S -> (i + 1) mod b <> 0 ->
+         decode_string d (E i) (snth S i) =
+         Some (E (i + 1), snth S (i + 1), lcp (snth S i) (snth S (i + 1)))).
+  Proof.
+    destruct HL as (Hbs & Hel & Hbk & Hg & E & HE). exists E. split.
+    - intros k H1 H2. split; [apply (buckets_iff d b S Hbk Hb k H1); exact H2|].
+      apply (get_header_stream d b S E Hbs Hel Hbk HE Hb Hin k H1 H2).
+    - apply (stream_dstep d b S E Hbs Hel Hbk Hg HE Hb Hin).
+  Qed.
+
+  Theorem rpfc_extract_spec_gen id : rpfc_extract d id = Some (spec_extract S id).
+  Proof.
+    destruct HL as (Hbs & Hel & Hbk & Hg & E & HE).
+    apply (rpfc_extract_stream d b S E Hbs Hel Hbk Hg HE Hb Hin).
+  Qed.
+
+  Theorem rpfc_locate_spec_gen q : nul_free q -> rpfc_locate d q = Some (spec_locate S q).
+  Proof.
+    destruct HL as (Hbs & Hel & Hbk & Hg & E & HE).
+    apply (rpfc_locate_stream d b S E Hbs Hel Hbk Hg HE Hb Hin).
+  Qed.
+
+  Theorem rpfc_locate_prefix_spec_gen p : nul_free p ->
+    rpfc_locate_prefix d p = Some (range_of (spec_prefix_ids S p)).
+  Proof.
+    destruct HL as (Hbs & Hel & Hbk & Hg & E & HE).
+    apply (rpfc_locate_prefix_stream d b S E Hbs Hel Hbk Hg HE Hb Hin).
+  Qed.
+
+  Lemma iter_header_stream E : stream_ok d b S E -> forall i, i < lenN S -> i mod b = 0 ->
+    iter_header d (hdr_off i (E (i - 1))) = Some (E i, snth S i).
+  Proof.
+    intros HE i Hi Hm. destruct (HE i Hi) as [Hml Hit]. rewrite Hm in Hit. cbn [N.eqb] in Hit.
+    destruct Hit as (_ & (rest & Ht) & Ee). unfold iter_header.
+    rewrite (cstr_at_spec _ _ _ _ Ht (s_nul_free S Hin i Hi)).
+    destruct (N.ltb_spec (lenN (snth S i)) (r_maxlength d)); [|lia]. rewrite Ee. reflexivity.
+  Qed.
+
+  Theorem rpfc_table_spec_gen : rpfc_extract_table d = Some (spec_table S).
+  Proof.
+    destruct HL as (Hbs & Hel & Hbk & Hg & E & HE).
+    apply (rtable_gen d b S E Hb Hbs).
+    - apply (stream_dstep' d b S E Hbs Hel Hbk Hg HE Hb Hin).
+    - apply (iter_header_stream E HE).
+    - apply (iter_dstep d b S E Hbs Hel Hbk Hg HE Hb Hin).
+    - destruct Hin as ((H & _) & _). exact H.
+    - exact Hel.
+  Qed.
+
+  Theorem rpfc_extract_prefix_spec_gen p : nul_free p ->
+    rpfc_extract_prefix d p = Some (match spec_prefix_strs S p with [] => None | l => Some l end).
+  Proof.
+    intros Hnp. unfold rpfc_extract_prefix. rewrite (rpfc_locate_prefix_spec_gen p Hnp).
+    destruct HL as (Hbs & Hel & Hbk & Hg & E & HE).
+    pose proof Hin as ((_ & _ & Hsort & _ & Hn32) & _).
+    destruct (prefix_answer S p Hsort) as (A & M & B & EE & _ & Es & Er).
+    rewrite Er, Es. destruct M as [|m0 M']; [reflexivity|].
+    destruct (N.eqb_spec (1 + lenN A) 0); [lia|].
+    assert (Hlen : lenN S = lenN A + (1 + lenN M') + lenN B) by (rewrite EE, !lenN_app, lenN_cons; lia).
+    rewrite (riter_range d b S E Hb Hbs
+               (stream_dstep' d b S E Hbs Hel Hbk Hg HE Hb Hin)
+               (iter_header_stream E HE)
+               (iter_dstep d b S E Hbs Hel Hbk Hg HE Hb Hin)) with (lft := 1 + lenN A) (rgt := 1 + lenN A + lenN M');
+      try lia.
+    - do 2 f_equal.
+      replace (1 + lenN A - 1) with (lenN A) by lia.
+      replace (1 + lenN A + lenN M' - (1 + lenN A) + 1) with (lenN (m0 :: M')) by (rewrite lenN_cons; lia).
+      rewrite EE, skipN_app_exact, firstN_app_exact. reflexivity.
+    - intros k Hk1 Hlt.
+      destruct (stream_header d b S E Hbs Hel Hbk HE Hb k Hk1 ltac:(apply (buckets_iff d b S Hbk Hb k Hk1); exact Hlt))
+        as (off & rest & _ & Ebl & _ & _ & Eoff).
+      rewrite Ebl, Eoff. reflexivity.
+  Qed.
+End Main.
+
+(* the statements with the hypotheses of the task: bucket size >= 2, non-empty pattern *)
+Theorem rpfc_decode_string_spec d b S : rpfc_layout_ok d b S -> 2 <= b -> rpfc_input S ->
+  exists E : N -> bpos,
+    (forall k, 1 <= k -> k <= r_buckets d ->
+       (k - 1) * b < lenN S /\ rpfc_get_header d k = Some (E ((k - 1) * b), snth S ((k - 1) * b))) /\
+    (forall i, i + 1 < lenN S -> (i + 1) mod b <> 0 ->
+       decode_string d (E i) (snth S i) = Some (E (i + 1), snth S (i + 1), lcp (snth S i) (snth S (i + 1)))).
+Proof. intros HL Hb Hin. apply rpfc_decode_string_spec_gen; auto. lia. Qed.
+
+Theorem rpfc_extract_spec d b S id : rpfc_layout_ok d b S -> 2 <= b -> rpfc_input S ->
+  rpfc_extract d id = Some (spec_extract S id).
+Proof. intros HL Hb Hin. apply (rpfc_extract_spec_gen d b S); auto. lia. Qed.
+
+Theorem rpfc_locate_spec d b S q : rpfc_layout_ok d b S -> 2 <= b -> rpfc_input S -> nul_free q ->
+  rpfc_locate d q = Some (spec_locate S q).
+Proof. intros HL Hb Hin Hq. apply (rpfc_locate_spec_gen d b S); auto. lia. Qed.
+
+Theorem rpfc_locate_prefix_spec d b S p : rpfc_layout_ok d b S -> 2 <= b -> rpfc_input S -> nul_free p ->
+  rpfc_locate_prefix d p = Some (range_of (spec_prefix_ids S p)).
+Proof. intros HL Hb Hin Hq. apply (rpfc_locate_prefix_spec_gen d b S); auto. lia. Qed.
+
+Theorem rpfc_locate_prefix_ids d b S p : rpfc_layout_ok d b S -> 2 <= b -> rpfc_input S -> nul_free p ->
+  exists r, rpfc_locate_prefix d p = Some r /\ contig_ids (fst r) (snd r) = spec_prefix_ids S p.
+Proof.
+  intros HL Hb Hin Hq. exists (range_of (spec_prefix_ids S p)).
+  split; [apply (rpfc_locate_prefix_spec d b S); assumption|].
+  destruct Hin as ((_ & _ & Hsort & _ & Hn) & _). apply range_ids_spec; [exact Hsort|].
+  assert (2 ^ 32 < 2 ^ 64) by (apply N.pow_lt_mono_r; lia). lia.
+Qed.
+
+Theorem rpfc_extract_prefix_spec d b S p : rpfc_layout_ok d b S -> 2 <= b -> rpfc_input S -> nul_free p ->
+  rpfc_extract_prefix d p = Some (match spec_prefix_strs S p with [] => None | l => Some l end).
+Proof. intros HL Hb Hin Hq. apply (rpfc_extract_prefix_spec_gen d b S); auto. lia. Qed.
+
+Theorem rpfc_table_spec d b S : rpfc_layout_ok d b S -> 2 <= b -> rpfc_input S ->
+  rpfc_extract_table d = Some (spec_table S).
+Proof. intros HL Hb Hin. apply (rpfc_table_spec_gen d b S); auto. lia. Qed.
+
+(* the same for an object certified by the boolean checkers (what the harness runs on every real object) *)
+Theorem rpfc_chk_theorems d S : rpfc_layout_chk d S = true -> rpfc_inputb S = true ->
+  (forall id, rpfc_extract d id = Some (spec_extract S id)) /\
+  (forall q, nul_free q -> rpfc_locate d q = Some (spec_locate S q)) /\
+  (forall p, nul_free p -> rpfc_locate_prefix d p = Some (range_of (spec_prefix_ids S p))) /\
+  (forall p, nul_free p -> rpfc_extract_prefix d p = Some (match spec_prefix_strs S p with [] => None | l => Some l end)) /\
+  rpfc_extract_table d = Some (spec_table S).
+Proof.
+  intros Hc Hi. destruct (rpfc_layout_chk_sound d S Hc) as [HL Hb]. apply rpfc_inputb_sound in Hi.
+  split; [intros id; apply (rpfc_extract_spec_gen d _ S HL Hb Hi)|].
+  split; [intros q Hq; apply (rpfc_locate_spec_gen d _ S HL Hb Hi q Hq)|].
+  split; [intros p Hp; apply (rpfc_locate_prefix_spec_gen d _ S HL Hb Hi p Hp)|].
+  split; [intros p Hp; apply (rpfc_extract_prefix_spec_gen d _ S HL Hb Hi p Hp)|].
+  apply (rpfc_table_spec_gen d _ S HL Hb Hi).
+Qed.
+
+(* ====================================================================== *)
+(* J. the length hypothesis is necessary: 3-byte VBytes break decodeString *)
+(* ====================================================================== *)
+(* The object the REAL constructor builds for  S = { a^16512 b, a^16512 c },  bucket size 2
+   (dumped from the implementation; no Re-Pair rule, 9-bit symbols 0 1 129 'c' 255 after the header):
+   it passes the layout checker - the bit stream does expand to VByte(16512) ++ "c" ++ [255] - but
+   decodeString fetches only two bytes of the three-byte VByte (`while (read < 2)`), so
+   VByte::decode reads a byte of vb that was never written: the model returns None, the real
+   code crashes (SEGV in decodeString under ASan).  Shared prefixes >= 2^14 are outside the theorems. *)
+Definition vb3_pre : list N := N.iter 16512 (cons 97) [].
+Definition vb3_S : list str := [vb3_pre ++ [98]; vb3_pre ++ [99]].
+Definition vb3_d : rpfc :=
+  {| r_elements := 2; r_maxlength := 16514; r_buckets := 1; r_bsize := 2; r_bitsrp := 9;
+     r_text := vb3_pre ++ [98; 0; 0; 0; 80; 38; 55; 248]; r_bl := [0; 0; 16521];
+     r_t := 256; r_maxchar := 255; r_rules := [] |}.
+
+Theorem rpfc_vbyte3_refuted :
+  rpfc_layout_chk vb3_d vb3_S = true /\ valid_set_b vb3_S = true /\
+  rpfc_extract vb3_d 2 = None /\ spec_extract vb3_S 2 = Some (vb3_pre ++ [99]).
+Proof. vm_compute. repeat split; reflexivity. Qed.
+
+(* ====================================================================== *)
+(* K. a concrete object (dumped from the real constructor) satisfying all hypotheses *)
+(* ====================================================================== *)
+(* S = ab abab ababab ababc abc c, bucket size 3: two buckets; rules 97:98, 256:256 *)
+Definition rex_S : list str :=
+  [[97;98]; [97;98;97;98]; [97;98;97;98;97;98]; [97;98;97;98;99]; [97;98;99]; [99]].
+Definition rex_d : rpfc :=
+  {| r_elements := 6; r_maxlength := 7; r_buckets := 2; r_bsize := 3; r_bitsrp := 9;
+     r_text := [97; 98; 0; 65; 64; 144; 144; 32; 97; 98; 97; 98; 99; 0; 65; 64; 80; 16; 16];
+     r_bl := [0; 0; 8; 20]; r_t := 256; r_maxchar := 255; r_rules := [(97, 98); (99, 255); (256, 255)] |}.
+
+Example rex_checked : rpfc_layout_chk rex_d rex_S = true /\ rpfc_inputb rex_S = true.
+Proof. vm_compute. split; reflexivity. Qed.
+
+Example rex_hyps : rpfc_layout_ok rex_d 3 rex_S /\ 2 <= 3 /\ rpfc_input rex_S.
+Proof.
+  destruct rex_checked as [H1 H2]. split; [exact (proj1 (rpfc_layout_chk_sound _ _ H1))|].
+  split; [lia|apply rpfc_inputb_sound; exact H2].
+Qed.
+
+Example rex_compute :
+  map (rpfc_extract rex_d) [0; 1; 2; 3; 4; 5; 6; 7] = map (fun i => Some (spec_extract rex_S i)) [0; 1; 2; 3; 4; 5; 6; 7] /\
+  map (rpfc_locate rex_d) ([[97]; [97;98;97]; [100]; []] ++ rex_S) = map (fun q => Some (spec_locate rex_S q)) ([[97]; [97;98;97]; [100]; []] ++ rex_S) /\
+  map (rpfc_locate_prefix rex_d) [[97]; [97;98;97]; [97;98;99]; [99]; [98]; [100]] = [Some (1, 5); Some (2, 4); Some (5, 5); Some (6, 6); Some (0, 0); Some (0, 0)] /\
+  rpfc_extract_prefix rex_d [97;98;97] = Some (Some [[97;98;97;98]; [97;98;97;98;97;98]; [97;98;97;98;99]]) /\
+  rpfc_extract_table rex_d = Some rex_S.
+Proof. vm_compute. repeat split; reflexivity. Qed.
